@@ -1,1 +1,792 @@
-(* placeholder: to be written *)
+(** Proofs for C19 (authorisation and pause).
+
+    Part A — guard primitives, for ALL callers / permission values.
+    Part B — permissions module + pausable module as a state machine, for ALL histories:
+             who can change what; no escalation by callers without the OWNER bit.
+    Part C — permissions hub, for ALL histories: an agent is authorised for a user only by that
+             user's own `whitelist` call; revocation and blacklisting stick.
+    Part D — the pause rules on the pair and farm models that are tied to the real contracts by
+             the C01-C07 correspondence runs, for ALL states and arguments.
+    Part E — the access table: finite, exhaustive checks by [vm_compute] over all rows x roles x
+             states, lifted to universally quantified statements with [forallb_forall]; inventory
+             coverage against the generated Gen/Endpoints.v. *)
+From Coq Require Import ZArith List Bool String Lia.
+From MX Require Import Base.Prelude Gen.Params Gen.Endpoints Model.Pair Model.Farm Model.Access.
+Import ListNotations.
+Open Scope Z_scope.
+
+(** ================================================================== Part A: guard primitives *)
+
+(** a permission value holds flag bit [i] *)
+Definition holds (perms i : Z) : Prop := Z.testbit perms i = true.
+
+Lemma land_pos_bit a b : 0 <= a -> 0 <= b -> Z.land a b <> 0 ->
+  exists i, 0 <= i /\ Z.testbit a i = true /\ Z.testbit b i = true.
+Proof.
+  intros Ha Hb Hne.
+  assert (Hnn : 0 <= Z.land a b) by (apply Z.land_nonneg; left; exact Ha).
+  assert (Hpos : 0 < Z.land a b) by lia.
+  exists (Z.log2 (Z.land a b)). split; [apply Z.log2_nonneg|].
+  pose proof (Z.bit_log2 (Z.land a b) Hpos) as Hb2.
+  rewrite Z.land_spec in Hb2. apply andb_true_iff in Hb2. exact Hb2.
+Qed.
+
+Lemma common_bit_land a b i : Z.testbit a i = true -> Z.testbit b i = true -> Z.land a b <> 0.
+Proof.
+  intros H1 H2 H0.
+  assert (H : Z.testbit (Z.land a b) i = true) by (rewrite Z.land_spec, H1, H2; reflexivity).
+  rewrite H0, Z.bits_0 in H. discriminate.
+Qed.
+
+(** permissions_module::require_caller_any_of succeeds exactly when the caller's permission set
+    and the demanded set have a flag in common *)
+Theorem require_any_of_iff : forall cp m, 0 <= cp -> 0 <= m ->
+  (require_any_of cp m = Ok tt <-> exists i, 0 <= i /\ holds cp i /\ holds m i).
+Proof.
+  intros cp m Hc Hm. unfold require_any_of, intersects, holds. split.
+  - destruct (Z.land cp m =? 0) eqn:E; simpl; [discriminate|]. intros _.
+    apply Z.eqb_neq in E. apply land_pos_bit; assumption.
+  - intros (i & _ & H1 & H2). pose proof (common_bit_land cp m i H1 H2) as Hne.
+    apply Z.eqb_neq in Hne. rewrite Hne. reflexivity.
+Qed.
+
+Theorem require_any_of_denied : forall cp m, 0 <= cp -> 0 <= m ->
+  (require_any_of cp m = Err EPerm <-> forall i, 0 <= i -> holds cp i -> holds m i -> False).
+Proof.
+  intros cp m Hc Hm. split.
+  - intros He i Hi H1 H2.
+    assert (Hok : require_any_of cp m = Ok tt) by (apply require_any_of_iff; eauto).
+    rewrite Hok in He. discriminate.
+  - intros Hno. unfold require_any_of, intersects.
+    destruct (Z.land cp m =? 0) eqn:E; simpl; [reflexivity|].
+    apply Z.eqb_neq in E. destruct (land_pos_bit cp m Hc Hm E) as (i & Hi & H1 & H2).
+    exfalso. exact (Hno i Hi H1 H2).
+Qed.
+
+(** the flags are distinct single bits, so "holds the OWNER flag" etc. is one bit test *)
+Lemma perm_flags_are_bits :
+  PERM_OWNER = 2 ^ 0 /\ PERM_ADMIN = 2 ^ 1 /\ PERM_PAUSE = 2 ^ 2.
+Proof. vm_compute. repeat split. Qed.
+
+Lemma intersects_single_bit cp k : 0 <= cp -> 0 <= k ->
+  intersects cp (2 ^ k) = Z.testbit cp k.
+Proof.
+  intros Hc Hk. unfold intersects.
+  destruct (Z.testbit cp k) eqn:E.
+  - assert (Hne : Z.land cp (2 ^ k) <> 0).
+    { apply (common_bit_land cp (2 ^ k) k E). apply Z.pow2_bits_true. exact Hk. }
+    apply Z.eqb_neq in Hne. rewrite Hne. reflexivity.
+  - destruct (Z.land cp (2 ^ k) =? 0) eqn:E0; [reflexivity|].
+    apply Z.eqb_neq in E0.
+    destruct (land_pos_bit cp (2 ^ k) Hc (Z.pow_nonneg 2 k ltac:(lia)) E0) as (i & Hi & H1 & H2).
+    rewrite Z.pow2_bits_eqb in H2 by exact Hk. apply Z.eqb_eq in H2. subst i.
+    rewrite E in H1. discriminate.
+Qed.
+
+(** Acting for another user: the optional original-caller argument demands a whitelisted contract
+    caller; the ...OnBehalf endpoints demand the hub's authorisation (listed by the user and not
+    blacklisted).  Nothing else lets a caller act for somebody else. *)
+Theorem act_on_behalf_sound : forall p f,
+  act_on_behalf p f = Ok tt ->
+  cf_party f PWhitelistedSC = true \/ (cf_hub_listed f = true /\ cf_hub_black f = false).
+Proof.
+  intros p f. unfold act_on_behalf, behalf_guard, guard_ok, hub_authorised.
+  destruct p; simpl.
+  - destruct (cf_party f PWhitelistedSC); [auto | discriminate].
+  - destruct (cf_hub_black f), (cf_hub_listed f); simpl; try discriminate. auto.
+Qed.
+
+Theorem act_on_behalf_complete : forall p f,
+  (p = ViaOrigCallerArg /\ cf_party f PWhitelistedSC = true) \/
+  (p = ViaOnBehalfEndpoint /\ cf_hub_listed f = true /\ cf_hub_black f = false) ->
+  act_on_behalf p f = Ok tt.
+Proof.
+  intros p f [[-> H] | (-> & H1 & H2)]; unfold act_on_behalf, behalf_guard, guard_ok, hub_authorised; simpl.
+  - rewrite H. reflexivity.
+  - rewrite H1, H2. reflexivity.
+Qed.
+
+(** a blacklisted caller is refused by the hub path whatever the user's list says *)
+Theorem blacklisted_never_on_behalf : forall f,
+  cf_hub_black f = true -> act_on_behalf ViaOnBehalfEndpoint f = Err EPerm.
+Proof.
+  intros f H. unfold act_on_behalf, behalf_guard, guard_ok, hub_authorised. rewrite H. reflexivity.
+Qed.
+
+(** ================================================================== Part B: permissions + pausable *)
+
+Definition has_flag (p flag : Z) : Prop := intersects p flag = true.
+
+(** the documented rule: who may perform which operation *)
+Definition pm_authorised (s : pm_state) (op : pm_op) : Prop :=
+  match op with
+  | PmAddAdmin c _ | PmRemoveAdmin c _ | PmAddPauser c _ | PmRemovePauser c _
+  | PmSetStateActiveNoSwaps c => has_flag (pm_get s c) PERM_OWNER
+  | PmUpdateOwnerOrAdmin c _ => c = pm_chain_owner s
+  | PmPause c | PmResume c => has_flag (pm_get s c) PERM_PAUSE
+  end.
+
+Lemma require_any_of_cases cp m :
+  (intersects cp m = true /\ require_any_of cp m = Ok tt) \/
+  (intersects cp m = false /\ require_any_of cp m = Err EPerm).
+Proof. unfold require_any_of. destruct (intersects cp m); simpl; auto. Qed.
+
+Theorem pm_step_authorised : forall s op s', pm_step s op = Ok s' -> pm_authorised s op.
+Proof.
+  intros s op s' H. destruct op; simpl in *; unfold has_flag;
+    try (match goal with
+         | H : bind (require_any_of ?a ?b) _ = Ok _ |- _ =>
+             destruct (require_any_of_cases a b) as [[Hi Hr] | [Hi Hr]]; rewrite Hr in H; simpl in H;
+             [exact Hi | discriminate]
+         end).
+  destruct (caller =? pm_chain_owner s) eqn:E; [apply Z.eqb_eq in E; exact E | discriminate].
+Qed.
+
+Theorem pm_step_unauthorised : forall s op, ~ pm_authorised s op -> pm_step s op = Err EPerm.
+Proof.
+  intros s op Hn. destruct op; simpl in *; unfold has_flag in Hn;
+    try (match goal with
+         | |- bind (require_any_of ?a ?b) _ = _ =>
+             destruct (require_any_of_cases a b) as [[Hi Hr] | [Hi Hr]]; rewrite Hr; simpl;
+             [contradiction | reflexivity]
+         end).
+  destruct (caller =? pm_chain_owner s) eqn:E; [apply Z.eqb_eq in E; contradiction | reflexivity].
+Qed.
+
+(** which part of the state an operation can touch *)
+Lemma pm_step_perms_need_owner : forall s op s',
+  pm_step s op = Ok s' -> pm_perms s' <> pm_perms s ->
+  has_flag (pm_get s (pm_caller op)) PERM_OWNER \/ pm_caller op = pm_chain_owner s.
+Proof.
+  intros s op s' H Hd. pose proof (pm_step_authorised s op s' H) as Ha.
+  destruct op; simpl in *; auto.
+  - (* pause *) destruct (require_any_of_cases (pm_get s caller) PERM_PAUSE) as [[_ Hr]|[_ Hr]]; rewrite Hr in H; simpl in H;
+      [inversion H; subst; simpl in Hd; congruence | discriminate].
+  - destruct (require_any_of_cases (pm_get s caller) PERM_PAUSE) as [[_ Hr]|[_ Hr]]; rewrite Hr in H; simpl in H;
+      [inversion H; subst; simpl in Hd; congruence | discriminate].
+Qed.
+
+Lemma pm_step_state_needs_pause_or_owner : forall s op s',
+  pm_step s op = Ok s' -> pm_state_val s' <> pm_state_val s ->
+  has_flag (pm_get s (pm_caller op)) PERM_PAUSE \/ has_flag (pm_get s (pm_caller op)) PERM_OWNER.
+Proof.
+  intros s op s' H Hd. pose proof (pm_step_authorised s op s' H) as Ha.
+  destruct op; simpl in *; auto;
+    try (destruct (require_any_of_cases (pm_get s caller) PERM_OWNER) as [[_ Hr]|[_ Hr]]; rewrite Hr in H; simpl in H;
+         [inversion H; subst; simpl in Hd; congruence | discriminate]).
+  destruct (caller =? pm_chain_owner s); [inversion H; subst; simpl in Hd; congruence | discriminate].
+Qed.
+
+Lemma pm_chain_owner_step : forall s op, pm_chain_owner (pm_step_total s op) = pm_chain_owner s.
+Proof.
+  intros s op. unfold pm_step_total. destruct (pm_step s op) as [s'|] eqn:E; [|reflexivity].
+  destruct op; simpl in E;
+    try (match type of E with bind (require_any_of ?a ?b) _ = _ =>
+           destruct (require_any_of_cases a b) as [[_ Hr]|[_ Hr]]; rewrite Hr in E; simpl in E;
+           [inversion E; reflexivity | discriminate] end).
+  destruct (caller =? pm_chain_owner s); [inversion E; reflexivity | discriminate].
+Qed.
+
+(** No escalation, for every history: if no caller of the history holds the OWNER flag (in the
+    initial state) or is the chain owner, then nobody's permissions ever change — in particular
+    none of them acquires a flag — whatever else they hold and call. *)
+Theorem pm_no_escalation : forall ops s,
+  (forall op, In op ops -> ~ has_flag (pm_get s (pm_caller op)) PERM_OWNER /\ pm_caller op <> pm_chain_owner s) ->
+  pm_perms (pm_run s ops) = pm_perms s.
+Proof.
+  induction ops as [|op t IH]; intros s Hall; [reflexivity|].
+  unfold pm_run in *. simpl.
+  assert (Hp : pm_perms (pm_step_total s op) = pm_perms s).
+  { unfold pm_step_total. destruct (pm_step s op) as [s'|] eqn:E; [|reflexivity].
+    destruct (list_eq_dec (fun a b : Z * Z => ltac:(decide equality; apply Z.eq_dec)) (pm_perms s') (pm_perms s)) as [Heq|Hne];
+      [exact Heq|].
+    destruct (Hall op (or_introl eq_refl)) as [H1 H2].
+    destruct (pm_step_perms_need_owner s op s' E Hne); contradiction. }
+  rewrite IH.
+  - exact Hp.
+  - intros op' Hin. destruct (Hall op' (or_intror Hin)) as [H1 H2].
+    unfold pm_get in *. rewrite Hp, pm_chain_owner_step. split; assumption.
+Qed.
+
+(** callers holding no flag at all, none of them the chain owner: the whole state (permissions and
+    the pause state) is left exactly as it was, for every history *)
+Theorem pm_powerless_history : forall ops s,
+  (forall op, In op ops -> pm_get s (pm_caller op) = 0 /\ pm_caller op <> pm_chain_owner s) ->
+  pm_run s ops = s.
+Proof.
+  induction ops as [|op t IH]; intros s Hall; [reflexivity|].
+  unfold pm_run in *. simpl.
+  assert (Hs : pm_step_total s op = s).
+  { unfold pm_step_total. destruct (Hall op (or_introl eq_refl)) as [H0 Hno].
+    rewrite pm_step_unauthorised; [reflexivity|].
+    intros Ha. destruct op; simpl in *; unfold has_flag, intersects in Ha; rewrite ?H0 in Ha; simpl in Ha;
+      try discriminate; contradiction. }
+  rewrite Hs. apply IH. intros op' Hin. apply Hall. right. exact Hin.
+Qed.
+
+(** ================================================================== Part C: permissions hub *)
+
+Lemma pair_eqb_eq a b : pair_eqb a b = true <-> a = b.
+Proof.
+  destruct a as [a1 a2], b as [b1 b2]. unfold pair_eqb. simpl. rewrite andb_true_iff, !Z.eqb_eq.
+  split; [intros [-> ->]; reflexivity | intros H; inversion H; auto].
+Qed.
+
+Lemma pmem_In x l : pmem x l = true <-> In x l.
+Proof.
+  unfold pmem. rewrite existsb_exists. split.
+  - intros (y & Hy & He). apply pair_eqb_eq in He. subst. exact Hy.
+  - intros H. exists x. split; [exact H | apply pair_eqb_eq; reflexivity].
+Qed.
+
+Lemma zmem_In x l : zmem x l = true <-> In x l.
+Proof.
+  unfold zmem. rewrite existsb_exists. split.
+  - intros (y & Hy & He). apply Z.eqb_eq in He. subst. exact Hy.
+  - intros H. exists x. split; [exact H | apply Z.eqb_refl].
+Qed.
+
+Lemma pmem_premove x y l : pmem x (premove y l) = true -> pmem x l = true /\ x <> y.
+Proof.
+  rewrite !pmem_In. unfold premove. rewrite filter_In. intros [Hin Hne]. split; [exact Hin|].
+  intros ->. rewrite (proj2 (pair_eqb_eq y y) eq_refl) in Hne. discriminate.
+Qed.
+
+Lemma hub_owner_step h op : h_owner (hub_step_total h op) = h_owner h.
+Proof.
+  unfold hub_step_total. destruct (hub_step h op) as [h'|] eqn:E; [|reflexivity].
+  destruct op; simpl in E.
+  - destruct (pmem (caller, a) (h_wl h)); simpl in E; [discriminate | inversion E; reflexivity].
+  - destruct (pmem (caller, a) (h_wl h)); simpl in E; [inversion E; reflexivity | discriminate].
+  - destruct (caller =? h_owner h); [inversion E; reflexivity | discriminate].
+  - destruct (caller =? h_owner h); [inversion E; reflexivity | discriminate].
+Qed.
+
+(** one step: a (user, agent) entry appears only through that user's own whitelist call *)
+Lemma hub_step_wl h op u a :
+  pmem (u, a) (h_wl (hub_step_total h op)) = true ->
+  pmem (u, a) (h_wl h) = true \/ op = HWhitelist u a.
+Proof.
+  unfold hub_step_total. destruct (hub_step h op) as [h'|] eqn:E; [|auto].
+  destruct op as [c x|c x|c x|c x]; simpl in E.
+  - destruct (pmem (c, x) (h_wl h)); simpl in E; [discriminate|]. inversion E; subst; simpl.
+    unfold pmem. simpl. rewrite orb_true_iff. intros [He|Hin]; [|left; exact Hin].
+    apply pair_eqb_eq in He. inversion He; subst. right. reflexivity.
+  - destruct (pmem (c, x) (h_wl h)); simpl in E; [|discriminate]. inversion E; subst; simpl.
+    intros H. left. apply (pmem_premove _ _ _ H).
+  - destruct (c =? h_owner h); [inversion E; subst; simpl; auto | discriminate].
+  - destruct (c =? h_owner h); [inversion E; subst; simpl; auto | discriminate].
+Qed.
+
+(** For every history: an agent is on a user's list only if it was there initially or the user
+    itself called whitelist(agent) — nobody else can authorise an agent for a user. *)
+Theorem hub_only_user_authorises : forall ops h u a,
+  pmem (u, a) (h_wl (hub_run h ops)) = true ->
+  pmem (u, a) (h_wl h) = true \/ In (HWhitelist u a) ops.
+Proof.
+  induction ops as [|op t IH]; intros h u a H; [left; exact H|].
+  unfold hub_run in *. simpl in H. apply IH in H. destruct H as [H|H].
+  - apply hub_step_wl in H. destruct H as [H| ->]; [left; exact H | right; left; reflexivity].
+  - right. right. exact H.
+Qed.
+
+(** revocation: after the user's successful removeWhitelist(agent) the agent is not authorised, and
+    stays so along every history in which the user does not whitelist it again *)
+Theorem hub_revoked : forall h h' u a ops,
+  hub_step h (HRemoveWhitelist u a) = Ok h' ->
+  ~ In (HWhitelist u a) ops ->
+  forall user_check, user_check = u -> is_whitelisted (hub_run h' ops) user_check a = false.
+Proof.
+  intros h h' u a ops Hs Hno uc ->. unfold is_whitelisted.
+  destruct (pmem (u, a) (h_wl (hub_run h' ops))) eqn:E; [|apply andb_false_r].
+  apply hub_only_user_authorises in E. destruct E as [E|E]; [|contradiction].
+  simpl in Hs. destruct (pmem (u, a) (h_wl h)); simpl in Hs; [|discriminate].
+  inversion Hs; subst; simpl in E. apply pmem_premove in E. destruct E as [_ Hne]. contradiction.
+Qed.
+
+(** the blacklist changes only through calls of the hub's owner *)
+Lemma hub_step_black h op :
+  h_black (hub_step_total h op) <> h_black h ->
+  exists x, op = HBlacklist (h_owner h) x \/ op = HRemoveBlacklist (h_owner h) x.
+Proof.
+  unfold hub_step_total. destruct (hub_step h op) as [h'|] eqn:E; [|congruence].
+  destruct op as [c x|c x|c x|c x]; simpl in E.
+  - destruct (pmem (c, x) (h_wl h)); simpl in E; [discriminate | inversion E; subst; simpl; congruence].
+  - destruct (pmem (c, x) (h_wl h)); simpl in E; [inversion E; subst; simpl; congruence | discriminate].
+  - destruct (c =? h_owner h) eqn:Ec; [|discriminate]. apply Z.eqb_eq in Ec. subst. intros _. exists x. auto.
+  - destruct (c =? h_owner h) eqn:Ec; [|discriminate]. apply Z.eqb_eq in Ec. subst. intros _. exists x. auto.
+Qed.
+
+Lemma hub_step_black_keeps h op a :
+  zmem a (h_black h) = true -> op <> HRemoveBlacklist (h_owner h) a ->
+  zmem a (h_black (hub_step_total h op)) = true.
+Proof.
+  intros Hin Hne. unfold hub_step_total. destruct (hub_step h op) as [h'|] eqn:E; [|exact Hin].
+  destruct op as [c x|c x|c x|c x]; simpl in E.
+  - destruct (pmem (c, x) (h_wl h)); simpl in E; [discriminate | inversion E; subst; exact Hin].
+  - destruct (pmem (c, x) (h_wl h)); simpl in E; [inversion E; subst; exact Hin | discriminate].
+  - destruct (c =? h_owner h); [|discriminate]. inversion E; subst; simpl.
+    destruct (zmem x (h_black h)); [exact Hin|]. unfold zmem in *. simpl. rewrite Hin. apply orb_true_r.
+  - destruct (c =? h_owner h) eqn:Ec; [|discriminate]. apply Z.eqb_eq in Ec. subst c.
+    inversion E; subst; simpl. apply zmem_In. unfold zremove. apply filter_In. split; [apply zmem_In; exact Hin|].
+    destruct (a =? x) eqn:Ex; [apply Z.eqb_eq in Ex; subst; contradiction | reflexivity].
+Qed.
+
+(** blacklisting sticks: along every history without the owner's removeBlacklist(agent), the agent
+    is authorised for NO user, whatever the users' lists say or become *)
+Theorem hub_blacklisted : forall ops h a,
+  zmem a (h_black h) = true ->
+  ~ In (HRemoveBlacklist (h_owner h) a) ops ->
+  forall u, is_whitelisted (hub_run h ops) u a = false.
+Proof.
+  induction ops as [|op t IH]; intros h a Hb Hno u.
+  - unfold is_whitelisted. simpl. rewrite Hb. reflexivity.
+  - unfold hub_run in *. simpl. apply IH.
+    + apply hub_step_black_keeps; [exact Hb|]. intros ->. apply Hno. left. reflexivity.
+    + rewrite hub_owner_step. intros Hin. apply Hno. right. exact Hin.
+Qed.
+
+(** only the hub's owner can change the blacklist *)
+Theorem hub_blacklist_only_owner : forall ops h,
+  (forall op, In op ops -> forall x, op <> HBlacklist (h_owner h) x /\ op <> HRemoveBlacklist (h_owner h) x) ->
+  h_black (hub_run h ops) = h_black h.
+Proof.
+  induction ops as [|op t IH]; intros h Hall; [reflexivity|].
+  unfold hub_run in *. simpl.
+  assert (Hk : h_black (hub_step_total h op) = h_black h).
+  { destruct (list_eq_dec Z.eq_dec (h_black (hub_step_total h op)) (h_black h)) as [He|Hne]; [exact He|].
+    destruct (hub_step_black h op Hne) as (x & [Hx|Hx]); destruct (Hall op (or_introl eq_refl) x); contradiction. }
+  rewrite IH; [exact Hk|].
+  intros op' Hin x. rewrite hub_owner_step. apply Hall. right. exact Hin.
+Qed.
+
+(** what the farm's on-behalf endpoints check is exactly the hub's isWhitelisted view; what the
+    original-caller argument checks is exactly the farm's own contract whitelist *)
+Theorem on_behalf_hub_rule : forall h wl u c,
+  act_on_behalf ViaOnBehalfEndpoint (hub_facts h wl u c) = Ok tt <-> is_whitelisted h u c = true.
+Proof.
+  intros. unfold act_on_behalf, behalf_guard, guard_ok, hub_authorised, hub_facts, is_whitelisted. simpl.
+  destruct (negb (zmem c (h_black h)) && pmem (u, c) (h_wl h)); split; intros; try reflexivity; discriminate.
+Qed.
+
+Theorem on_behalf_orig_caller_rule : forall h wl u c,
+  act_on_behalf ViaOrigCallerArg (hub_facts h wl u c) = Ok tt <-> zmem c wl = true.
+Proof.
+  intros. unfold act_on_behalf, behalf_guard, guard_ok, hub_facts. simpl.
+  destruct (zmem c wl); split; intros; try reflexivity; discriminate.
+Qed.
+
+(** ================================================================== Part D: pause rules on the models *)
+
+Definition pair_user_fund_op (op : pop) : bool :=
+  match op with
+  | AddInitial _ _ _ | Add _ _ _ _ _ | Remove _ _ _ _ | SwapIn _ _ _ _ _ | SwapOut _ _ _ _ _ => true
+  | _ => false
+  end.
+
+Definition pair_swap_op (op : pop) : bool :=
+  match op with SwapIn _ _ _ _ _ | SwapOut _ _ _ _ _ | SwapNoFee _ _ _ _ => true | _ => false end.
+
+Lemma check_false {A} (b : bool) (e : err) (k : result A) : b = false -> (check b else e; k) = Err e.
+Proof. intros ->. reflexivity. Qed.
+
+(** Pair, Inactive (never activated, or paused): no user operation that moves funds succeeds, with
+    the single exception of the bootstrap deposit, which needs an empty pool. *)
+Theorem pair_inactive_no_user_funds : forall p op r,
+  p_state p = ST_Inactive -> pair_user_fund_op op = true -> Model.Pair.step p op = Ok r ->
+  exists c a1 a2, op = AddInitial c a1 a2 /\ p_S p = 0.
+Proof.
+  intros p op r Hst Hu Hs.
+  assert (Hact : Model.Pair.is_state_active (p_state p) = false) by (rewrite Hst; reflexivity).
+  assert (Hsw : Model.Pair.can_swap (p_state p) = false) by (rewrite Hst; reflexivity).
+  destruct op; simpl in Hu; try discriminate; simpl in Hs.
+  - (* AddInitial *)
+    exists c, a1, a2. split; [reflexivity|]. unfold ep_add_initial in Hs.
+    destruct (match p_adder p with Some ad => c =? ad | None => true end); [|discriminate].
+    destruct ((0 <? a1) && (0 <? a2)); [|discriminate].
+    destruct (negb (Model.Pair.is_state_active (p_state p))); [|discriminate].
+    destruct (p_S p =? 0) eqn:E; [apply Z.eqb_eq in E; exact E | discriminate].
+  - unfold ep_add in Hs.
+    destruct ((0 <? m1) && (0 <? m2)); [|discriminate].
+    destruct ((0 <? a1) && (0 <? a2)); [|discriminate].
+    rewrite Hact in Hs. discriminate.
+  - unfold ep_remove in Hs.
+    destruct ((0 <? m1) && (0 <? m2)); [|discriminate].
+    rewrite Hact in Hs. discriminate.
+  - unfold ep_swap_in in Hs.
+    destruct (0 <? minout); [|discriminate]. destruct (0 <? ain); [|discriminate].
+    destruct (swap_order tin tout); simpl in Hs; [|discriminate].
+    rewrite Hsw in Hs. discriminate.
+  - unfold ep_swap_out in Hs.
+    destruct (0 <? aout); [|discriminate]. destruct (0 <? ainmax); [|discriminate].
+    destruct (swap_order tin tout); simpl in Hs; [|discriminate].
+    rewrite Hsw in Hs. discriminate.
+Qed.
+
+(** the bootstrap deposit is impossible once liquidity exists: it is never a way around a pause *)
+Theorem pair_bootstrap_needs_empty_pool : forall p c a1 a2 r,
+  ep_add_initial p c a1 a2 = Ok r ->
+  p_S p = 0 /\ Model.Pair.is_state_active (p_state p) = false /\
+  match p_adder p with Some ad => c = ad | None => True end.
+Proof.
+  intros p c a1 a2 r Hs. unfold ep_add_initial in Hs.
+  destruct (p_adder p) as [ad|] eqn:Ea.
+  - destruct (c =? ad) eqn:Ec; [|discriminate]. apply Z.eqb_eq in Ec.
+    destruct ((0 <? a1) && (0 <? a2)); [|discriminate].
+    destruct (Model.Pair.is_state_active (p_state p)); [discriminate|]. simpl in Hs.
+    destruct (p_S p =? 0) eqn:E; [apply Z.eqb_eq in E; auto | discriminate].
+  - destruct ((0 <? a1) && (0 <? a2)); [|discriminate].
+    destruct (Model.Pair.is_state_active (p_state p)); [discriminate|]. simpl in Hs.
+    destruct (p_S p =? 0) eqn:E; [apply Z.eqb_eq in E; auto | discriminate].
+Qed.
+
+(** Pair, PartialActive: no swap of any kind succeeds (not even the whitelisted no-fee swap) *)
+Theorem pair_partial_active_no_swaps : forall p op,
+  p_state p <> ST_Active -> pair_swap_op op = true -> is_ok (Model.Pair.step p op) = false.
+Proof.
+  intros p op Hst Hu.
+  assert (Hsw : Model.Pair.can_swap (p_state p) = false).
+  { unfold Model.Pair.can_swap. apply Z.eqb_neq. exact Hst. }
+  destruct op; simpl in Hu; try discriminate; simpl.
+  - unfold ep_swap_in. destruct (0 <? minout); [|reflexivity]. destruct (0 <? ain); [|reflexivity].
+    destruct (swap_order tin tout); simpl; [|reflexivity]. rewrite Hsw. reflexivity.
+  - unfold ep_swap_out. destruct (0 <? aout); [|reflexivity]. destruct (0 <? ainmax); [|reflexivity].
+    destruct (swap_order tin tout); simpl; [|reflexivity]. rewrite Hsw. reflexivity.
+  - unfold ep_swap_no_fee. destruct (existsb (Z.eqb c) (p_wl p)); [|reflexivity].
+    destruct (0 <? ain); [|reflexivity].
+    destruct (swap_order tin tout); simpl; [|reflexivity]. rewrite Hsw. reflexivity.
+Qed.
+
+(** ... while the state check of addLiquidity / removeLiquidity passes in PartialActive exactly as
+    in Active ([is_state_active]); a concrete PartialActive pool accepting both is in Props/C19.v *)
+Theorem pair_liquidity_state_check : forall st,
+  Model.Pair.is_state_active st = true <-> st = ST_Active \/ st = ST_PartialActive.
+Proof.
+  intros st. unfold Model.Pair.is_state_active. rewrite orb_true_iff, !Z.eqb_eq. tauto.
+Qed.
+
+Definition farm_user_op (op : fop) : bool :=
+  match op with
+  | FEnter _ _ _ _ _ _ | FClaim _ _ _ _ _ _ | FCompound _ _ _ _ _ _ | FExit _ _ _ _ _
+  | FMerge _ _ _ _ _ | FClaimBoosted _ _ _ _ => true
+  | _ => false
+  end.
+
+Lemma pay_reward_state f r b f' : pay_reward f r b = Ok f' -> f_state f' = f_state f.
+Proof.
+  unfold pay_reward. destruct (0 <=? b); [|discriminate].
+  destruct (sub_chk (f_reserve f) r); simpl; [|discriminate].
+  destruct (sub_chk (f_pool f) b); simpl; [|discriminate].
+  destruct (sub_chk (f_bal_rew f) r); simpl; [|discriminate].
+  intros H. inversion H. reflexivity.
+Qed.
+
+(** Farm (dex/farm; the same base functions serve farm-with-locked-rewards and farm-staking):
+    unless the contract is Active, enter / claim / compound / exit / merge / claimBoosted all fail *)
+Theorem farm_not_active_no_user_op : forall f op,
+  f_state f <> ST_Active -> farm_user_op op = true -> is_ok (fstep f op) = false.
+Proof.
+  intros f op Hst Hu.
+  assert (Ha : active f = false) by (unfold active; apply Z.eqb_neq; exact Hst).
+  destruct op; simpl in Hu; try discriminate; simpl.
+  - unfold ep_enter. destruct (0 <? amt); [|reflexivity].
+    destruct (pay_reward f b b) as [f0|] eqn:E; simpl; [|reflexivity].
+    assert (Ha0 : active f0 = false).
+    { unfold active. rewrite (pay_reward_state _ _ _ _ E). apply Z.eqb_neq. exact Hst. }
+    rewrite Ha0. reflexivity.
+  - unfold ep_claim. rewrite Ha. reflexivity.
+  - unfold ep_compound. rewrite Ha. reflexivity.
+  - unfold ep_exit. rewrite Ha. reflexivity.
+  - unfold ep_merge. rewrite Ha. reflexivity.
+  - unfold ep_claim_boosted. destruct (negb (utot f c =? 0)); [|reflexivity]. rewrite Ha. reflexivity.
+Qed.
+
+(** ================================================================== Part E: the table *)
+
+Definition unprivileged (r : role) : bool :=
+  match r with RUser | RAgentAuth | RAgentRevoked | RAgentBlack => true | _ => false end.
+
+Definition is_party (r : role) : bool := match r with RParty _ => true | _ => false end.
+
+Definition cells_of (r : row) : list (role * cstate) :=
+  list_prod (roles_of (row_contract r)) (states_of (row_contract r)).
+
+Definition row_allowed (r : row) (ro : role) (st : cstate) : bool :=
+  allowed (row_class r) (row_contract r) ro st.
+
+Definition all_cells (P : row -> role -> cstate -> bool) : bool :=
+  forallb (fun r => forallb (fun c => P r (fst c) (snd c)) (cells_of r)) access_table.
+
+Lemma all_cells_spec P : all_cells P = true ->
+  forall r ro st, In r access_table -> In ro (roles_of (row_contract r)) -> In st (states_of (row_contract r)) ->
+  P r ro st = true.
+Proof.
+  unfold all_cells. intros H r ro st Hr Hro Hst.
+  rewrite forallb_forall in H. specialize (H r Hr). rewrite forallb_forall in H.
+  apply (H (ro, st)). unfold cells_of. apply in_prod; assumption.
+Qed.
+
+Definition is_kind (k : kind) (r : row) : bool := kind_eqb (c_kind (row_class r)) k.
+
+(** E1. Configuration / admin rows: never allowed for a plain user or any agent, in any state; and
+    when allowed, the caller holds what the row names: the chain owner for #[only_owner] rows, a
+    flag of the demanded permission set for permission rows. *)
+Definition config_rule (r : row) (ro : role) (st : cstate) : bool :=
+  if is_kind KConfig r then
+    if row_allowed r ro st then
+      negb (unprivileged ro) &&
+      match c_guard (row_class r) with
+      | GOnlyOwner | GOwnerOrOpen => role_eqb ro ROwner
+      | GPerm m => intersects (perms (row_contract r) ro) m
+      | _ => false
+      end
+    else true
+  else true.
+
+Lemma config_rule_holds : all_cells config_rule = true.
+Proof. vm_compute. reflexivity. Qed.
+
+(** E2. While a pair, farm, staking or energy contract is Inactive or Paused no row that moves user
+    funds (user operations and on-behalf operations) is allowed for anybody — except the pair's
+    bootstrap deposit in the never-activated pair. *)
+Definition moves_user_funds (r : row) : bool := is_kind KUserFunds r || is_kind KOnBehalf r.
+
+Definition is_bootstrap (r : row) : bool :=
+  contract_eqb (row_contract r) CPair && String.eqb (row_endpoint r) "addInitialLiquidity".
+
+Definition paused_rule (r : row) (ro : role) (st : cstate) : bool :=
+  if pausable_contract (row_contract r) && moves_user_funds r && (cstate_eqb st Inactive || cstate_eqb st Paused) then
+    if row_allowed r ro st then is_bootstrap r && cstate_eqb st Inactive && role_eqb ro (RParty PAdder) else true
+  else true.
+
+Lemma paused_rule_holds : all_cells paused_rule = true.
+Proof. vm_compute. reflexivity. Qed.
+
+(** the bootstrap row exists, is a user-funds row and is allowed for the adder in Inactive *)
+Lemma bootstrap_row :
+  lookup CPair "addInitialLiquidity" VPlain = Some Bootstrap /\
+  allowed Bootstrap CPair (RParty PAdder) Inactive = true /\
+  allowed Bootstrap CPair (RParty PAdder) Paused = false.
+Proof. vm_compute. repeat split. Qed.
+
+(** E3. A partially active pair accepts liquidity but no swaps. *)
+Definition pair_ep (e : string) (r : row) : bool :=
+  contract_eqb (row_contract r) CPair && String.eqb (row_endpoint r) e.
+
+Definition partial_rule (r : row) (ro : role) (st : cstate) : bool :=
+  if cstate_eqb st PartialActive then
+    if pair_ep "addLiquidity" r || pair_ep "removeLiquidity" r then row_allowed r ro st
+    else if pair_ep "swapTokensFixedInput" r || pair_ep "swapTokensFixedOutput" r || pair_ep "swapNoFeeAndForward" r
+         then negb (row_allowed r ro st)
+    else true
+  else true.
+
+Lemma partial_rule_holds : all_cells partial_rule = true.
+Proof. vm_compute. reflexivity. Qed.
+
+Lemma pair_liquidity_and_swap_rows_exist :
+  forallb (fun e => match lookup CPair e VPlain with Some _ => true | None => false end)
+          ["addLiquidity"; "removeLiquidity"; "swapTokensFixedInput"; "swapTokensFixedOutput"; "swapNoFeeAndForward"]%string = true.
+Proof. vm_compute. reflexivity. Qed.
+
+(** E4. Acting for another user: allowed only for a whitelisted contract or the authorised agent;
+    never for the revoked agent, the blacklisted agent or a plain user. *)
+Definition behalf_rule (r : row) (ro : role) (st : cstate) : bool :=
+  if is_kind KOnBehalf r then
+    if row_allowed r ro st then role_eqb ro (RParty PWhitelistedSC) || role_eqb ro RAgentAuth
+    else true
+  else true.
+
+Lemma behalf_rule_holds : all_cells behalf_rule = true.
+Proof. vm_compute. reflexivity. Qed.
+
+(** E5. Contract-to-contract entry points are allowed for configured counterparties only. *)
+Definition entry_rule (r : row) (ro : role) (st : cstate) : bool :=
+  if is_kind KContractEntry r then (if row_allowed r ro st then is_party ro else true) else true.
+
+Lemma entry_rule_holds : all_cells entry_rule = true.
+Proof. vm_compute. reflexivity. Qed.
+
+(** E6. Lifecycle functions are never allowed as calls. *)
+Definition lifecycle_rule (r : row) (ro : role) (st : cstate) : bool :=
+  if is_kind KLifecycle r then negb (row_allowed r ro st) else true.
+
+Lemma lifecycle_rule_holds : all_cells lifecycle_rule = true.
+Proof. vm_compute. reflexivity. Qed.
+
+(** E7. Inventory: every function the Rust sources export has a row (plain variant); every plain
+    row names an exported function; rows are unique; the #[only_owner] attribute of the source
+    agrees with the row's guard; views and read-only rows are not payable. *)
+Definition contract_of_name (n : string) : option contract :=
+  find (fun c => String.eqb (contract_name c) n) all_contracts.
+
+Definition inv_contract (e : string * string * nat * bool * bool) : string := fst (fst (fst (fst e))).
+Definition inv_endpoint (e : string * string * nat * bool * bool) : string := snd (fst (fst (fst e))).
+Definition inv_kind (e : string * string * nat * bool * bool) : nat := snd (fst (fst e)).
+Definition inv_only_owner (e : string * string * nat * bool * bool) : bool := snd (fst e).
+Definition inv_payable (e : string * string * nat * bool * bool) : bool := snd e.
+
+Definition inv_row (e : string * string * nat * bool * bool) : option class :=
+  match contract_of_name (inv_contract e) with
+  | Some c => lookup c (inv_endpoint e) VPlain
+  | None => None
+  end.
+
+Definition covered (e : string * string * nat * bool * bool) : bool :=
+  match inv_row e with Some _ => true | None => false end.
+
+Lemma inventory_covered_b : forallb covered inventory = true.
+Proof. vm_compute. reflexivity. Qed.
+
+Definition in_inventory (r : row) : bool :=
+  existsb (fun e => String.eqb (inv_contract e) (contract_name (row_contract r))
+                    && String.eqb (inv_endpoint e) (row_endpoint r)) inventory.
+
+Lemma table_rows_exist_b : forallb in_inventory access_table = true.
+Proof. vm_compute. reflexivity. Qed.
+
+Definition row_key_eqb (a b : row) : bool :=
+  contract_eqb (row_contract a) (row_contract b) && String.eqb (row_endpoint a) (row_endpoint b)
+  && variant_eqb (row_variant a) (row_variant b).
+
+Fixpoint unique_rows (l : list row) : bool :=
+  match l with
+  | [] => true
+  | r :: t => negb (existsb (row_key_eqb r) t) && unique_rows t
+  end.
+
+Lemma table_unique_b : unique_rows access_table = true.
+Proof. vm_compute. reflexivity. Qed.
+
+Definition attr_agrees (e : string * string * nat * bool * bool) : bool :=
+  match inv_row e with
+  | Some cl =>
+      Bool.eqb (inv_only_owner e) (match c_guard cl with GOnlyOwner => true | _ => false end)
+      && Bool.eqb (Nat.ltb (inv_kind e) 2) (match c_guard cl with GLifecycle => true | _ => false end)
+      && (if kind_eqb (c_kind cl) KView then negb (inv_payable e) else true)
+  | None => false
+  end.
+
+Lemma attributes_agree_b : forallb attr_agrees inventory = true.
+Proof. vm_compute. reflexivity. Qed.
+
+(** universally quantified forms *)
+Theorem inventory_covered : forall e, In e inventory -> exists cl, inv_row e = Some cl.
+Proof.
+  intros e H. pose proof inventory_covered_b as Hb. rewrite forallb_forall in Hb.
+  specialize (Hb e H). unfold covered in Hb. destruct (inv_row e) as [cl|]; [eauto | discriminate].
+Qed.
+
+Theorem table_rows_exist : forall r, In r access_table -> in_inventory r = true.
+Proof. intros r H. pose proof table_rows_exist_b as Hb. rewrite forallb_forall in Hb. exact (Hb r H). Qed.
+
+Theorem attributes_agree : forall e, In e inventory -> attr_agrees e = true.
+Proof. intros e H. pose proof attributes_agree_b as Hb. rewrite forallb_forall in Hb. exact (Hb e H). Qed.
+
+Theorem config_needs_role : forall r ro st,
+  In r access_table -> In ro (roles_of (row_contract r)) -> In st (states_of (row_contract r)) ->
+  c_kind (row_class r) = KConfig -> row_allowed r ro st = true ->
+  unprivileged ro = false /\
+  match c_guard (row_class r) with
+  | GOnlyOwner | GOwnerOrOpen => ro = ROwner
+  | GPerm m => intersects (perms (row_contract r) ro) m = true
+  | _ => False
+  end.
+Proof.
+  intros r ro st Hr Hro Hst Hk Ha.
+  pose proof (all_cells_spec _ config_rule_holds r ro st Hr Hro Hst) as H.
+  unfold config_rule, is_kind in H. rewrite Hk in H. simpl in H. rewrite Ha in H.
+  apply andb_true_iff in H. destruct H as [H1 H2]. split.
+  - destruct (unprivileged ro); [discriminate | reflexivity].
+  - destruct (c_guard (row_class r)); try discriminate; try exact H2;
+      (destruct ro as [| | | | | | |p]; try discriminate; try reflexivity; destruct p; discriminate).
+Qed.
+
+Theorem paused_no_fund_moves : forall r ro st,
+  In r access_table -> In ro (roles_of (row_contract r)) -> In st (states_of (row_contract r)) ->
+  pausable_contract (row_contract r) = true -> moves_user_funds r = true ->
+  st = Inactive \/ st = Paused ->
+  row_allowed r ro st = true ->
+  is_bootstrap r = true /\ st = Inactive /\ ro = RParty PAdder.
+Proof.
+  intros r ro st Hr Hro Hst Hp Hm Hs Ha.
+  pose proof (all_cells_spec _ paused_rule_holds r ro st Hr Hro Hst) as H.
+  unfold paused_rule in H. rewrite Hp, Hm, Ha in H.
+  assert (Hc : cstate_eqb st Inactive || cstate_eqb st Paused = true) by (destruct Hs; subst; reflexivity).
+  rewrite Hc in H. simpl in H.
+  apply andb_true_iff in H. destruct H as [H H3]. apply andb_true_iff in H. destruct H as [H1 H2].
+  split; [exact H1|]. split.
+  - destruct st; try discriminate; reflexivity.
+  - destruct ro as [| | | | | | |p]; try discriminate. destruct p; try discriminate; reflexivity.
+Qed.
+
+Theorem partial_active_liquidity_not_swaps : forall r ro,
+  In r access_table -> In ro (roles_of CPair) -> row_contract r = CPair ->
+  ((row_endpoint r = "addLiquidity" \/ row_endpoint r = "removeLiquidity")%string ->
+     row_allowed r ro PartialActive = true) /\
+  ((row_endpoint r = "swapTokensFixedInput" \/ row_endpoint r = "swapTokensFixedOutput"
+    \/ row_endpoint r = "swapNoFeeAndForward")%string ->
+     row_allowed r ro PartialActive = false).
+Proof.
+  intros r ro Hr Hro Hc.
+  assert (Hst : In PartialActive (states_of (row_contract r))) by (rewrite Hc; simpl; auto).
+  assert (Hro' : In ro (roles_of (row_contract r))) by (rewrite Hc; exact Hro).
+  pose proof (all_cells_spec _ partial_rule_holds r ro PartialActive Hr Hro' Hst) as H.
+  unfold partial_rule, pair_ep in H. rewrite Hc in H. simpl in H.
+  split.
+  - intros [He|He]; rewrite He in H; simpl in H; exact H.
+  - intros [He|[He|He]]; rewrite He in H; simpl in H; apply negb_true_iff in H; exact H.
+Qed.
+
+Theorem on_behalf_only_authorised : forall r ro st,
+  In r access_table -> In ro (roles_of (row_contract r)) -> In st (states_of (row_contract r)) ->
+  c_kind (row_class r) = KOnBehalf -> row_allowed r ro st = true ->
+  ro = RParty PWhitelistedSC \/ ro = RAgentAuth.
+Proof.
+  intros r ro st Hr Hro Hst Hk Ha.
+  pose proof (all_cells_spec _ behalf_rule_holds r ro st Hr Hro Hst) as H.
+  unfold behalf_rule, is_kind in H. rewrite Hk in H. simpl in H. rewrite Ha in H.
+  apply orb_true_iff in H. destruct H as [H|H].
+  - left. destruct ro as [| | | | | | |p]; try discriminate. destruct p; try discriminate; reflexivity.
+  - right. destruct ro as [| | | | | | |p]; try discriminate; try reflexivity. destruct p; discriminate.
+Qed.
+
+Theorem contract_entries_only_counterparties : forall r ro st,
+  In r access_table -> In ro (roles_of (row_contract r)) -> In st (states_of (row_contract r)) ->
+  c_kind (row_class r) = KContractEntry -> row_allowed r ro st = true ->
+  exists p, ro = RParty p.
+Proof.
+  intros r ro st Hr Hro Hst Hk Ha.
+  pose proof (all_cells_spec _ entry_rule_holds r ro st Hr Hro Hst) as H.
+  unfold entry_rule, is_kind in H. rewrite Hk in H. simpl in H. rewrite Ha in H.
+  destruct ro; try discriminate. eauto.
+Qed.
+
+Theorem lifecycle_never_called : forall r ro st,
+  In r access_table -> In ro (roles_of (row_contract r)) -> In st (states_of (row_contract r)) ->
+  c_kind (row_class r) = KLifecycle -> row_allowed r ro st = false.
+Proof.
+  intros r ro st Hr Hro Hst Hk.
+  pose proof (all_cells_spec _ lifecycle_rule_holds r ro st Hr Hro Hst) as H.
+  unfold lifecycle_rule, is_kind in H. rewrite Hk in H. simpl in H. apply negb_true_iff in H. exact H.
+Qed.
+
+(** the verdict is the rule: allowed iff the guard passes for the caller's facts and the state
+    requirement holds (so the table layer is an instance of the primitives of Part A) *)
+Theorem allowed_iff : forall cl c ro st,
+  allowed cl c ro st = true <->
+  guard_ok pair_creation_open (c_guard cl) (facts_of c ro) = true /\ state_ok (c_sreq cl) st = true.
+Proof.
+  intros. unfold allowed, verdict_of, decide.
+  destruct (guard_ok pair_creation_open (c_guard cl) (facts_of c ro)), (state_ok (c_sreq cl) st);
+    split; intros H; try discriminate; try (destruct H; discriminate); auto.
+Qed.
+
+(** bounds of the finite checks, stated so that the quantifier domains are visible: 587 rows,
+    563 inventoried functions, 11926 (row, role, state) cells *)
+Definition table_rows : Z := Z.of_nat (length access_table).
+Definition inventory_rows : Z := Z.of_nat (length inventory).
+Definition table_cells : Z := fold_right (fun r n => n + Z.of_nat (length (cells_of r))) 0 access_table.
+
+Lemma table_dimensions : table_rows = 587 /\ inventory_rows = 563 /\ table_cells = 11926.
+Proof. vm_compute. repeat split. Qed.
